@@ -4,9 +4,10 @@ Property theorems only (model and spec: KinModel/Response.lean; helper lemmas: K
 
 Full-strength statement (the goal shape):
     ∀ canon o i, (validateResponse canon reg o i).err = none ↔ Accept canon reg o i
-It is proved below as `accept_iff_partial` outside two decidable exclusion classes in which the code
+It is proved below as `accept_iff_partial` outside three decidable exclusion classes in which the code
 really deviates from the property text (each with a kernel-checked witness, replayed on the Go code):
   HdrDecodedNil     a present header whose decoding gives no value is validated as `null`
+  HdrArrayNoItems   a present header whose schema is an array without `items` makes the decoder dereference nil
   EmptyMapStrict    empty responses map under IncludeResponseStatus
 Two former classes were repaired in the repository; their exclusions are gone and the former witnesses are
 regression theorems (model = spec on them, inputs kept in corpus/C08):
@@ -17,6 +18,7 @@ regression theorems (model = spec on them, inputs kept in corpus/C08):
 -/
 import KinModel.Lemmas.C08
 import KinModel.ResponseReg
+import KinModel.Gen.RespConsts
 namespace KinModel.Response
 
 /-! ### Selection of the response entry -/
@@ -97,6 +99,129 @@ theorem writeOnly_null_rejected :
     satRepB false (.obj (.cons "pw" .null .nil)) (pwSchema true) = false ∧
     visit ⟨true, true⟩ (.obj (.cons "pw" .null .nil)) (pwSchema true) = true := by decide
 
+/-! ### Decoding of a response header (decodeValue with the header decoder, simple style) -/
+
+/-- A header schema without `type` never yields a value (the origin of finding F-C08-1). -/
+theorem decodeHeader_untyped (s : Sch) (raw : String) (d : Dec) (h : s.core.ty = .any) :
+    decodeHeader s raw d = .nil := by
+  simp [decodeHeader, h]
+
+/-- A header of primitive type yields no value exactly when its text is empty. -/
+theorem decodeHeader_prim_nil_iff (s : Sch) (raw : String) (d : Dec)
+    (h : s.core.ty = .integer ∨ s.core.ty = .boolean ∨ s.core.ty = .string) :
+    decodeHeader s raw d = .nil ↔ raw = "" := by
+  unfold decodeHeader parsePrim
+  rcases h with h | h | h <;> simp only [h] <;> by_cases hr : raw = "" <;> simp [hr] <;> split <;> simp
+
+/-- A non-empty header of type string is its text. -/
+theorem decodeHeader_string (s : Sch) (raw : String) (d : Dec) (h : s.core.ty = .string) (hr : raw ≠ "") :
+    decodeHeader s raw d = .val (.str raw) := by
+  simp [decodeHeader, parsePrim, h, hr]
+
+/-- The decoded value of a typed header has the declared type. -/
+theorem decodeHeader_typed (s : Sch) (raw : String) (d : Dec) (v : J) (h : decodeHeader s raw d = .val v) :
+    (s.core.ty = .integer → ∃ n, v = .num n) ∧ (s.core.ty = .boolean → ∃ b, v = .bool b) ∧
+    (s.core.ty = .string → v = .str raw) ∧ s.core.ty ≠ .any := by
+  unfold decodeHeader parsePrim at h
+  refine ⟨?_, ?_, ?_, ?_⟩
+  · intro ht
+    simp only [ht] at h
+    by_cases hr : raw = ""
+    · simp [hr] at h
+    · simp only [hr, if_false] at h
+      cases hp : parseInt64 raw.toList with
+      | none => simp [hp] at h
+      | some n => simp [hp] at h; exact ⟨n, h.symm⟩
+  · intro ht
+    simp only [ht] at h
+    by_cases hr : raw = ""
+    · simp [hr] at h
+    · simp only [hr, if_false] at h
+      cases hp : parseBoolWord raw with
+      | none => simp [hp] at h
+      | some b => simp [hp] at h; exact ⟨b, h.symm⟩
+  · intro ht
+    simp only [ht] at h
+    by_cases hr : raw = ""
+    · simp [hr] at h
+    · simp [hr] at h; exact h.symm
+  · intro ht
+    simp [ht] at h
+
+/-- On a document that passes validation (array schemas carry `items`) the header decoder dereferences no nil. -/
+theorem decodeHeader_no_panic (s : Sch) (raw : String) (d : Dec)
+    (hi : s.core.ty = .array → s.items ≠ .none) (hd : d ≠ .panic) : decodeHeader s raw d ≠ .panic := by
+  unfold decodeHeader
+  cases ht : s.core.ty with
+  | any => simp
+  | object => simpa using hd
+  | array =>
+    cases hit : s.items with
+    | none => exact absurd hit (hi ht)
+    | some it =>
+      have := parseArr_some_ne_panic it (splitComma raw)
+      simp only
+      split
+      · simp
+      · assumption
+  | integer => simpa using parsePrim_ne_panic _ _
+  | boolean => simpa using parsePrim_ne_panic _ _
+  | string => simpa using parsePrim_ne_panic _ _
+
+/-- **Array headers**: when every comma-separated item parses as a primitive of the items type, the value is the
+array of the parsed items. -/
+theorem decodeHeader_array_vals (s it : Sch) (raw : String) (d : Dec) (x : J) (xs : List J)
+    (ht : s.core.ty = .array) (hit : s.items = .some it) (h : ItemsParse it.core.ty (splitComma raw) (x :: xs)) :
+    decodeHeader s raw d = .val (.arr (JL.ofList (x :: xs))) := by
+  unfold decodeHeader
+  simp only [ht, hit, parseArr_vals it _ _ h, JL.ofList]
+
+/-- **Array headers**: the first item that does not parse to a value decides — an empty or untyped item makes the
+whole header "no value", an unparsable one a decoding error. -/
+theorem decodeHeader_array_first_bad (s it : Sch) (raw : String) (d : Dec) (pre : List String) (xs : List J)
+    (v : String) (post : List String) (b : Dec)
+    (ht : s.core.ty = .array) (hit : s.items = .some it) (hsplit : splitComma raw = pre ++ v :: post)
+    (hpre : ItemsParse it.core.ty pre xs) (hv : parsePrim it.core.ty v = b) (hb : ∀ x, b ≠ .val x) :
+    decodeHeader s raw d = b := by
+  unfold decodeHeader
+  simp only [ht, hit, hsplit, parseArr_first_bad it pre xs v post b hpre hv hb]
+  cases b with
+  | val x => exact absurd rfl (hb x)
+  | err => rfl
+  | nil => rfl
+  | panic => rfl
+
+def intHdrSchema : Sch := .mk { ty := .integer } .nil .none .none
+def arrHdrSchema (it : OSch) : Sch := .mk { ty := .array } .nil .none it
+
+def Dec.isNum (n : Int) : Dec → Bool | .val (.num m) => m == n | _ => false
+def Dec.isErr : Dec → Bool | .err => true | _ => false
+def Dec.isNil : Dec → Bool | .nil => true | _ => false
+def Dec.isPanic : Dec → Bool | .panic => true | _ => false
+def JL.nums : JL → List (Option Int)
+  | .nil => []
+  | .cons (.num n) r => some n :: JL.nums r
+  | .cons _ r => none :: JL.nums r
+def Dec.isNums (ns : List Int) : Dec → Bool | .val (.arr xs) => xs.nums == ns.map some | _ => false
+
+/-- strconv.ParseInt base 10 / 64 bit and strconv.ParseBool on the texts the differential run also replays -/
+example : ([("5", 5), ("+5", 5), ("-0", 0), ("007", 7), ("-3", -3), ("9223372036854775807", 9223372036854775807),
+    ("-9223372036854775808", -9223372036854775808)].all
+    (fun rn => (decodeHeader intHdrSchema rn.1 .err).isNum rn.2)) = true := by decide
+example : (["1_0", "0x10", " 5", "5 ", "-", "+", "1e3", "9223372036854775808", "-9223372036854775809"].all
+    (fun r => (decodeHeader intHdrSchema r .err).isErr)) = true := by decide
+example : (["1", "t", "T", "TRUE", "true", "True"].map parseBoolWord) = List.replicate 6 (some true) ∧
+    (["0", "f", "F", "FALSE", "false", "False"].map parseBoolWord) = List.replicate 6 (some false) ∧
+    (["tRue", "yes", " true", "01"].map parseBoolWord) = List.replicate 4 none := by decide
+example : (decodeHeader (arrHdrSchema (.some intHdrSchema)) "1,2" .err).isNums [1, 2] = true ∧
+    (decodeHeader (arrHdrSchema (.some intHdrSchema)) "1,,2" .err).isNil = true ∧
+    (decodeHeader (arrHdrSchema (.some intHdrSchema)) "x," .err).isErr = true ∧
+    (decodeHeader (arrHdrSchema (.some intHdrSchema)) ",x" .err).isNil = true ∧
+    (decodeHeader (arrHdrSchema (.some intHdrSchema)) "" .err).isNil = true ∧
+    (decodeHeader (arrHdrSchema (.some (.mk {} .nil .none .none))) "1,2" .err).isNil = true ∧
+    (decodeHeader (arrHdrSchema .none) "1,2" .err).isPanic = true ∧
+    (decodeHeader (arrHdrSchema .none) ",1" .err).isNil = true := by decide
+
 /-! ### ValidateResponse -/
 
 /-- HEAD requests are not checked. -/
@@ -143,7 +268,7 @@ theorem acceptB_iff (canon : String → String) (reg : List (String × String)) 
     · cases o.excludeBody <;> simp
 
 /-- **C08 main theorem.** Full strength: `(validateResponse canon reg o i).err = none ↔ Accept canon reg o i` for every
-response map, status, header set, content type, body, decoding outcome and option set. Proved outside the two
+response map, status, header set, content type, body, decoding outcome and option set. Proved outside the three
 exclusion classes (each has a witness below): the response passes exactly when it is skipped (HEAD, 301/304/307/308),
 or no entry is selected and strictness is off, or — against the entry selected by exact code, class pattern,
 default — every declared header other than Content-Type is present-and-valid or absent-and-optional, and
@@ -273,12 +398,115 @@ theorem header_error_names_declared (canon : String → String) (w : Bool) (hdrs
   obtain ⟨h1, h2⟩ := (mem_checkedHeaders r x).mp hx
   exact ⟨x, h1, h2, hc⟩
 
+/-- **Order of the header loop.** The header error reported is the one of the failing declared header with the
+least name (`sort.Strings`): every declared header that fails has a name at least as large. -/
+theorem header_error_is_least_failing (canon : String → String) (w : Bool) (hdrs : List (String × String))
+    (r : Resp) (e : Err) (h : firstErr (checkHeader canon w hdrs) (checkedHeaders r) = some e) :
+    ∃ x, x ∈ r.headers ∧ x.name ≠ "Content-Type" ∧ checkHeader canon w hdrs x = some e ∧
+      ∀ y, y ∈ r.headers → y.name ≠ "Content-Type" → checkHeader canon w hdrs y ≠ none → x.name ≤ y.name := by
+  obtain ⟨pre, x, post, hl, hp, hx⟩ := firstErr_some_split _ _ _ h
+  have hxm : x ∈ checkedHeaders r := by rw [hl]; simp
+  obtain ⟨h1, h2⟩ := (mem_checkedHeaders r x).mp hxm
+  refine ⟨x, h1, h2, hx, ?_⟩
+  intro y hy hyn hye
+  have hym : y ∈ checkedHeaders r := (mem_checkedHeaders r y).mpr ⟨hy, hyn⟩
+  have hs : (pre ++ x :: post).Pairwise (fun a b => a.name ≤ b.name) := by
+    rw [← hl]; exact sortHdrs_sorted _
+  rw [hl] at hym
+  rcases List.mem_append.mp hym with hpre | hrest
+  · exact absurd (hp y hpre) hye
+  · rcases List.mem_cons.mp hrest with rfl | hpost
+    · exact String.le_refl _
+    · have := (List.pairwise_append.mp hs).2.1
+      exact (List.pairwise_cons.mp this).1 y hpost
+
 /-- A header described by `content` is only checked for presence (finding #22, fixed). -/
 theorem header_by_content_presence_only (canon : String → String) (w : Bool) (hdrs : List (String × String))
     (h : Hdr) (hs : h.schema = none) :
     checkHeader canon w hdrs h = none ↔ (present canon hdrs h = true ∨ h.required = false) := by
   unfold checkHeader
   cases hp : present canon hdrs h <;> cases hr : h.required <;> simp [hs]
+
+/-! ### The constants of the skips and of the status-class key are the ones the source spells (table RespConsts) -/
+
+open KinModel.Gen in
+/-- Table obligation: every switch / range shape of ValidateResponse and Responses.Status was read. -/
+theorem respConsts_recognised :
+    respConsts.all (fun r => match r with | .unrecognised _ => false | _ => true) = true := by decide
+
+open KinModel.Gen in
+/-- The status codes the model skips are exactly the cases of the source's `switch status`. -/
+theorem skipStatus_from_source (st : Int) : skipStatus st = true ↔ RespConstRow.skipStatus st ∈ respConsts := by
+  rw [skipStatus_iff]
+  simp only [respConsts, List.mem_cons, RespConstRow.skipStatus.injEq, reduceCtorEq, false_or, or_false,
+    List.not_mem_nil]
+  constructor
+  · rintro (h | h | h | h) <;> simp [h]
+  · rintro (h | h | h | h) <;> simp [h]
+
+open KinModel.Gen in
+/-- The only method the source skips is HEAD. -/
+theorem skipMethod_from_source (m : String) : m = "HEAD" ↔ RespConstRow.skipMethod m ∈ respConsts := by
+  simp [respConsts]
+
+open KinModel.Gen in
+/-- The class key exists exactly inside the source's range condition, … -/
+theorem classRange_from_source (status : Int) :
+    (classKey status).isSome = true ↔ ∃ lo hi, RespConstRow.classRange lo hi ∈ respConsts ∧ lo < status ∧ status < hi := by
+  rw [classKey_defined_iff]
+  simp only [respConsts, List.mem_cons, RespConstRow.classRange.injEq, reduceCtorEq, false_or, or_false,
+    List.not_mem_nil]
+  constructor
+  · intro h; exact ⟨99, 600, ⟨rfl, rfl⟩, by omega, by omega⟩
+  · rintro ⟨lo, hi, ⟨rfl, rfl⟩, h1, h2⟩; omega
+
+open KinModel.Gen in
+/-- … it is the hundreds digit followed by the source's suffix, and always one of the source's five case labels
+(so the `switch st` inside the range branch never filters anything out). -/
+theorem classKey_from_source (status : Int) (k : String) (h : classKey status = some k) :
+    RespConstRow.classKey k ∈ respConsts ∧ RespConstRow.classSuffix "XX" ∈ respConsts ∧
+      k = toString (status / 100) ++ "XX" := by
+  unfold classKey at h
+  split at h
+  · rename_i hr
+    simp only [Option.some.injEq] at h
+    refine ⟨?_, by simp [respConsts], h.symm⟩
+    have hd : status / 100 = 1 ∨ status / 100 = 2 ∨ status / 100 = 3 ∨ status / 100 = 4 ∨ status / 100 = 5 := by omega
+    subst h
+    rcases hd with hd | hd | hd | hd | hd <;> rw [hd] <;> decide
+  · simp at h
+
+/-! ### decodeBody: the decoder registered for the media type -/
+
+/-- A body whose media type (the Content-Type before its first ';') has no registered decoder fails to decode,
+also when a wildcard entry of the content map declares it. -/
+theorem unregistered_media_type_rejected (reg : List (String × String)) (o : Opts) (i : Input) (r : Resp)
+    (mt : MediaType) (s : Sch) (he : o.excludeBody = false) (hc : r.content ≠ [])
+    (hg : contentGet r.content (ctOf i) = some mt) (hs : mt.schema = some s) (hr : i.readFails = false)
+    (hu : lookup (parseMediaType (ctOf i)) reg = none) :
+    checkBody reg o i r = ⟨some .bodyDecode, some i.body⟩ := by
+  have : r.content.isEmpty = false := by cases h : r.content <;> simp_all
+  simp [checkBody, he, this, hg, hs, hr, decodeBody, hu]
+
+/-- Under a text decoder (plain, file) the value checked is the body text itself, whatever `bodyDec` says. -/
+theorem text_body_is_its_text (reg : List (String × String)) (i : Input) (d : String)
+    (hl : lookup (parseMediaType (ctOf i)) reg = some d) (ht : textDecoder d = true) :
+    decodeBody reg i = .val (.str i.body) := by
+  simp [decodeBody, hl, ht]
+
+/-- Table obligation: every registration statement of the package was read. -/
+theorem bodyDecoders_recognised :
+    KinModel.Gen.bodyDecoders.all (fun r => match r with | .unrecognised _ => false | _ => true) = true := by decide
+
+/-- Table obligation: no media type is registered twice, so the order of the rows is immaterial. -/
+theorem genReg_keys_distinct : (genReg.map (·.1)).Nodup := by decide
+
+/-- Table obligation: which registered media types get a text decoder, and that JSON has its decoder. -/
+theorem genReg_text_decoders :
+    (genReg.filter (fun kv => textDecoder kv.2)).map (·.1) = ["text/plain", "application/octet-stream"] ∧
+    lookup "application/json" genReg = some "JSONBodyDecoder" ∧
+    lookup "application/problem+json" genReg = some "JSONBodyDecoder" ∧
+    lookup "application/xml" genReg = none := by decide
 
 /-! ### Witnesses of the exclusion classes (model ≠ spec on a concrete input inside the class) -/
 
@@ -314,6 +542,13 @@ accepted by the model and by the spec. -/
 theorem header_required_writeOnly_absent_accepted :
     let i := inp [("200", ⟨[strHdr pwReqHdrSchema (.val (.obj (.cons "n" (.str "x") .nil)))], []⟩)] [("X-A", "n,x")] .err
     Excluded id {} i = false ∧ (validateResponse id genReg {} i).err = none ∧ acceptB id genReg {} i = true := by
+  decide
+
+/-- `X-A: 1,2` against the header schema `{type: array}` (no `items`): nil dereference. -/
+theorem witness_HdrArrayNoItems :
+    let i := inp [("200", ⟨[strHdr (arrHdrSchema .none) .err], []⟩)] [("X-A", "1,2")] .err
+    HdrArrayNoItems id i = true ∧ (validateResponse id genReg {} i).err = some (.hdrPanic "X-A") ∧
+      acceptB id genReg {} i = false := by
   decide
 
 /-- Empty responses map, IncludeResponseStatus: accepted although no entry defines the status. -/
